@@ -770,6 +770,10 @@ def c13(v):
         xs.add(s_ * 10**6 + (s_ % 3) * 499999)
     xs |= {mx, -mx, mx - 1, -mx + 1}
     xs |= {P.rnd.randint(-mx, mx) for _ in range(2000 * scale_of(v))}
+    # every order of magnitude (log-uniform) and every binary band of every clock unit
+    xs |= {int(10 ** P.rnd.uniform(0, 18.93)) * P.rnd.choice((1, -1)) for _ in range(3000 * scale_of(v))}
+    xs |= {x for x in pools.binary_bands(P.rnd, mx)}
+    xs = {x for x in xs if abs(x) <= mx}
     for x in sorted(xs):
         a = pools.us3(x)
         ax = abs(x)
@@ -944,6 +948,13 @@ def c07(v):
                         plan.append(("D.and_hms", [0, h, mi, sc, us]))
     # times of day that alias to zero / to the sign bit when a microsecond count or a pre-1970 remainder is narrowed to
     # 32 bits, on dates before and after 1970: split, accessors, recombination
+    tsmin, tsmax = pools.DATE_MIN * 86400 * 10**6, (pools.DATE_MAX + 1) * 86400 * 10**6 - 1
+    for x in pools.binary_bands(P.rnd, 2**62, ks=(15, 16, 31, 32, 33)):
+        if tsmin <= x <= tsmax:
+            ts_ = pools.us3(x)
+            plan.append(("TS.acc", [ts_]))
+            plan.append(("TS.extract", [ts_]))
+            plan.append(("T.from_ts", [ts_]))
     for t in P.alias_times:
         for d_ in (-1, -7305, pools.DATE_MIN + 5, 0, 19782, pools.DATE_MAX - 3):
             plan.append(("TS.acc", [[d_, t[0], t[1]]]))
